@@ -12,6 +12,7 @@ import e2
 import e2_c06
 import e2_c11
 import e2_c12
+import e3
 from common import BUILD, Machinery
 
 
@@ -215,6 +216,8 @@ PROPS["C11"] = lambda prop, tier, seed, t0: e2_c11.run(prop, tier, seed, t0)
 
 PROPS["C12"] = lambda prop, tier, seed, t0: e2_c12.run(prop, tier, seed, t0)
 
+PROPS["C19"] = lambda prop, tier, seed, t0: e3.run(prop, tier, seed, t0)
+
 
 def setup():
     t0 = time.time()
@@ -266,6 +269,29 @@ def replay(path):
         for x in errs[:5]:
             print("  %s line %s: %s" % (x["code"], x["line"], x["message"]))
         if got != v["expect"] or v.get("always"):
+            print("VIOLATION property=%s replay=%s" % (prop, path))
+            return 1
+        print("not reproduced on the current tree")
+        return 0
+    if v.get("engine") == "E3":
+        model = catalogue.generate(BUILD)
+        c = v["example"]["case"]
+        variant = next((x for x in e3.VARIANTS if e3.vname(x) == c.get("variant")), e3.VARIANTS[0])
+        fset = frozenset(c.get("features") or ([c["feature"]] if c.get("feature") else []))
+        table = e3.feature_table()
+        fset = frozenset(e3.closure(fset, table) & set(e3.quantity_features(model)))
+        ok, rlib, deps, log = e3.build_config(fset, variant)
+        print("replay of C19: cargo build --lib -p quantities --no-default-features --features %s -> %s" % (",".join(e3.cargo_features(fset, variant)), "ok" if ok else "FAILED"))
+        pok = False
+        if ok:
+            src, _, _ = e3.probe_source(fset, model)
+            pok, plog = e3.rustc_probe(src, rlib, deps, os.path.join(BUILD, "gen", "c19-replay"), "probe")
+            print("exposure probe: %s" % ("ok" if pok else "FAILED\n" + plog))
+        else:
+            print(log)
+        if not (ok and pok) or "results-depend" in v["key"]:
+            if "results-depend" in v["key"]:
+                print("(corpus differences are re-examined by ./check C19)")
             print("VIOLATION property=%s replay=%s" % (prop, path))
             return 1
         print("not reproduced on the current tree")
